@@ -35,7 +35,7 @@ def main():
     ap.add_argument("--checks", default=None)
     ap.add_argument("--tier", default="quick")
     a = ap.parse_args()
-    src = Path(a.src)
+    src = Path(a.src).resolve()
     meta = json.loads((src / "meta.json").read_text())
     prop = meta["property"]
     checks = a.checks.split(",") if a.checks else [prop]
